@@ -19,8 +19,9 @@ META = {
     "note": "Bounded: 1 series x 6 time points (3 chunk slots x 2) x float/int-histogram (x float-histogram thorough) with thinned (all "
             "thorough) ranges; 2 series x 2 time points x 5 matcher classes x external label on/off; 2 series x 12 time points x 3 types "
             "by seeded simulation. Frame budget tiny (every chunk its own frame) or 1 MiB. Head chunks only (no persisted blocks), one "
-            "query per request, no sample limit, no read hints. Known finding KF-C42-1: a series the server splits over several frames "
-            "is returned by NewChunkedSeriesSet as several series with the same label set.",
+            "query per request, no sample limit, no read hints. The defect found with this check (KF-C42-1: a series the server "
+            "splits over several frames was returned by NewChunkedSeriesSet as several series with the same label set) is repaired by "
+            "commit 25688644ac; spec and harness now demand the re-assembled series.",
     "technique": "TLA+ reference + transcription (Read.tla) model-checked by TLC; TLC-generated data/query cases replayed against a real TSDB "
                  "through remote.NewReadHandler, FromQueryResult and NewChunkedSeriesSet",
     "design_ref": "DESIGN.md §5 C42",
@@ -51,7 +52,7 @@ def run(ctx):
                 return c
         return cases[0]
     ctx.samples = [pick(lambda c: not c["kf"] and c["ref"] and len(c["ref"][0]["samples"]) >= 2 and c["q"]["lo"] > 0),
-                   pick(lambda c: c["kf"]), pick(lambda c: c["q"]["ext"] and c["ref"]), pick(lambda c: c["q"]["m"] == "nea" and c["ref"]),
+                   pick(lambda c: c.get("split")), pick(lambda c: c["q"]["ext"] and c["ref"]), pick(lambda c: c["q"]["m"] == "nea" and c["ref"]),
                    cases[-1]]
     inp = ctx.write_ndjson("cases.ndjson", cases)
     gr = ctx.go_test("storage/remote", ["c42_read_test.go"], "^TestVerifC42$", env={"VERIF_IN": inp}, timeout="40m")
